@@ -54,3 +54,8 @@ func held(mu any) bool { return false }
 //@ func Association.processAcknowledgement
 //@   loop 2 complete{C15}
 //@   at call Stream.onBufferReleased assert#released-without-association-lock{C15} !held(a.lock)
+
+//@ func Stream.handleForwardTSNForUnordered
+//@   ensures#abandoned-unordered-fragments-purged{C07,C11} len(s.reassemblyQueue.unorderedChunks) > 0 ==>
+//@      specSerGT32(s.reassemblyQueue.unorderedChunks[0].tsn, newCumulativeTSN)
+//@   ensures#ordered-data-untouched{C07} sameSlice(s.reassemblyQueue.ordered, old(s.reassemblyQueue.ordered)) && s.reassemblyQueue.nextSSN == old(s.reassemblyQueue.nextSSN)
